@@ -552,7 +552,19 @@ func (r *Run) evalQuant(env *SpecEnv, x EQuant) SV {
 	if x.Forall {
 		q = "forall"
 	}
-	return SV{t: Term{fmt.Sprintf("(%s (%s) %s)", q, strings.Join(decls, " "), body.t.S), "Bool"}, T: types.Typ[types.Bool]}
+	bs := body.t.S
+	if len(x.Patterns) > 0 {
+		var ps []string
+		for _, pat := range x.Patterns {
+			var ts []string
+			for _, pe := range pat {
+				ts = append(ts, r.evalNoDef(n, pe).t.S)
+			}
+			ps = append(ps, ":pattern ("+strings.Join(ts, " ")+")")
+		}
+		bs = "(! " + bs + " " + strings.Join(ps, " ") + ")"
+	}
+	return SV{t: Term{fmt.Sprintf("(%s (%s) %s)", q, strings.Join(decls, " "), bs), "Bool"}, T: types.Typ[types.Bool]}
 }
 
 // evalNoDef evaluates under binders: definitions (define-fun) must not capture bound variables.
